@@ -1,5 +1,6 @@
 //! Reads a frame file (one frame per line: hex TAB anything) and prints, per frame, the Debug rendering of the
-//! decoded message as this single-feature build of rtcm-rs sees it. Then the same frames are run through the stream
+//! decoded message as this single-feature build of rtcm-rs sees it and, for typed messages, the frame this build produces
+//! when it encodes that message again. Then the same frames are run through the stream
 //! API of this build (all frames concatenated: once through MsgFrameIter, once through the documented caller loop with
 //! small chunks) and two verdict lines say whether the stream passes deliver the same renderings in the same order.
 use rtcm_rs::prelude::*;
@@ -7,6 +8,21 @@ use std::io::{BufRead, Write};
 
 fn unhex(s: &str) -> Vec<u8> {
     (0..s.len() / 2).filter_map(|i| u8::from_str_radix(&s[2 * i..2 * i + 2], 16).ok()).collect()
+}
+
+/// Debug rendering; for typed messages also the frame this build produces when it encodes the decoded message again
+fn render(m: &Message) -> String {
+    match m {
+        Message::Empty | Message::Corrupt | Message::MsgNotSupported(_) => format!("{:?}", m),
+        _ => {
+            let mut b = MessageBuilder::new();
+            let re = match b.build_message(m) {
+                Ok(f) => f.iter().map(|x| format!("{:02x}", x)).collect::<String>(),
+                Err(_) => "ERR".to_string(),
+            };
+            format!("{:?}\t{}", m, re)
+        }
+    }
 }
 
 fn verdict(name: &str, got: &[String], want: &[String]) -> String {
@@ -32,7 +48,7 @@ fn main() {
         match MessageFrame::new(&bytes) {
             Ok(mf) => {
                 let m = mf.get_message();
-                let s = format!("{:?}", m);
+                let s = render(&m);
                 writeln!(out, "{}", s).unwrap();
                 per_frame.push(s);
                 stream.extend_from_slice(&bytes);
@@ -42,7 +58,7 @@ fn main() {
     }
     // one shot through the iterator
     let mut it = MsgFrameIter::new(&stream);
-    let oneshot: Vec<String> = (&mut it).map(|mf| format!("{:?}", mf.get_message())).collect();
+    let oneshot: Vec<String> = (&mut it).map(|mf| render(&mf.get_message())).collect();
     writeln!(out, "{}", verdict("STREAM-ONESHOT", &oneshot, &per_frame)).unwrap();
     // the caller loop: append a chunk, take frames until none, drop what was consumed
     let sizes = [5usize, 1, 9, 64, 3, 700, 2, 17, 6, 1200];
@@ -59,7 +75,7 @@ fn main() {
             let (consumed, frame) = next_msg_frame(&buf);
             let had = match frame {
                 Some(mf) => {
-                    chunked.push(format!("{:?}", mf.get_message()));
+                    chunked.push(render(&mf.get_message()));
                     true
                 }
                 None => false,
